@@ -214,7 +214,7 @@ func (e *Engine) mergeStates(fork *node, forkKnown *knownSet, arr []*State) *Sta
 			n := nodes[i]
 			if n.check != nil {
 				hasCheck = true
-				if !n.check.Cover && n.check.Kind != "post" {
+				if !n.check.Cover && n.check.Kind != "post" && n.check.Kind != "callsonly" {
 					facts = append(facts, n.check.Goal)
 				}
 				continue
